@@ -373,6 +373,7 @@ func (t *table) purgeFamiliesNotIn(cols map[string]*btapb.ColumnFamily) {
 		r, changed := scrubRow(r, cols)
 		if changed {
 			t.rows.ReplaceOrInsert(r)
+			verifPoint("purge.afterRow", r.Key)
 		}
 		return true
 	})
